@@ -70,6 +70,15 @@ void vf_native_reach(const char *label)
     fprintf(stderr, "VF-REACHED: %s\n", label);
 }
 
+/* allocation-fault injection in the native replay: the harness's vf_alloc_hook() (if it defines one) decides, exactly as in the solver build */
+extern int vf_alloc_hook(void) __attribute__((weak));
+void *__real_malloc(size_t);
+void *__real_calloc(size_t, size_t);
+void *__real_realloc(void *, size_t);
+void *__wrap_malloc(size_t n) { if (vf_alloc_hook && vf_alloc_hook()) return NULL; return __real_malloc(n); }
+void *__wrap_calloc(size_t a, size_t b) { if (vf_alloc_hook && vf_alloc_hook()) return NULL; return __real_calloc(a, b); }
+void *__wrap_realloc(void *p, size_t n) { if (vf_alloc_hook && vf_alloc_hook()) return NULL; return __real_realloc(p, n); }
+
 extern void harness(void);
 
 int main(void)
